@@ -40,6 +40,22 @@ TOKEN_ALPHABET = [b'pub', b'extern', b'fn', b'f', b'(', b')', b'{', b'}', b';', 
                   b'if', b'else', b'goto', b'loop', b'var', b'&', b'[', b']', b'"s"', b'->', b'i32', b'return', b'==', b'+', b'|', b'.', b'as', b'cast']
 
 
+def _boundary_runs():
+    """counting boundaries: long runs of one token (depth counters, u8/u16 counters, buffer limits), bare and inside a
+    statement, and inputs at the token-buffer limit with and without an earlier lexing error"""
+    for tok in TOKEN_ALPHABET:
+        for n in (127, 128, 129, 255, 256, 257, 300, 1000):
+            run = b' '.join([tok] * n) if tok.isalnum() else tok * n
+            yield b'fn f() { x = ' + run + b' y; }'
+            yield b'fn f() { ' + run + b' x = 1; }'
+            yield run
+    for n in (65535, 65536, 70000):
+        yield b';' * n
+        yield b'$\n' + b';' * n
+        yield b'fn f() { x = 1; }\n$ \n' + b';' * n
+        yield b'(' * n
+
+
 def _corpus():
     out = []
     for f in sorted(glob.glob(os.path.join(REPO, 'tests', 'samples', '**', '*.pn'), recursive=True))[:400]:
@@ -112,7 +128,7 @@ def search(pid, unit, failure, tier='quick', seed=0):
             w = witness_header.search(time.time() + BUDGET_S.get(tier, 25) * 0.6, rng)
             if w:
                 return w
-        inputs = itertools.chain(SEEDS_DELTA, _corpus(), _token_soup(4 if tier == 'quick' else 6, rng, 4000 if tier == 'quick' else 60000))
+        inputs = itertools.chain(SEEDS_DELTA, _boundary_runs(), _corpus(), _token_soup(4 if tier == 'quick' else 6, rng, 4000 if tier == 'quick' else 60000))
         hit = _run_many('delta', inputs, deadline, _crashes)
         if hit:
             data, r = hit
